@@ -27,6 +27,7 @@ type SiteClause struct {
 	Ordinal int    // 0 = every call of that callee
 	Kind    string // assert | assume
 	When    string // before | after
+	Havoc   []string
 	Clause
 }
 
@@ -35,9 +36,12 @@ type Contract struct {
 	Pkg        string
 	Requires   []*Clause
 	Ensures    []*Clause
+	Assumes    []*Clause // postconditions assumed at call sites but NOT verified against the body (listed in evidence)
 	ModGiven   bool
 	ModAll     bool
-	Modifies   []string // heap map names or "Type.field"
+	Modifies   []string       // heap map names or "Type.field"
+	Preserves  []string       // for dynamically dispatched callees: everything except these may change
+	ModObj     []*ModObjEntry // object-restricted frame entries: "Type.field@expr"
 	LoopInv    map[int][]*Clause
 	LoopMod    map[int][]string
 	Sites      []*SiteClause
@@ -53,6 +57,12 @@ type Contract struct {
 	Tags       map[string]bool
 	Unroll     map[int]int
 	PureResult bool // result is a function of args+heap (deterministic) – for spec use
+}
+
+type ModObjEntry struct {
+	Field string // "Type.field" or elems(T) as written
+	Expr  ast.Expr
+	Src   string
 }
 
 type GhostEffect struct {
@@ -93,7 +103,7 @@ type GhostDecl struct {
 }
 
 var tagRe = regexp.MustCompile(`^([A-Z][0-9]{2,3}\.[A-Za-z0-9_.\-#]+(?:,[A-Z][0-9]{2,3}\.[A-Za-z0-9_.\-#]+)*):\s*`)
-var kwRe = regexp.MustCompile(`^(func|spec|axiom|lemma|requires|ensures|modifies|loop#\d+|at|inline|trusted|noverify|ghost|params|safe|unroll#\d+|monitor|pure)\b`)
+var kwRe = regexp.MustCompile(`^(func|spec|axiom|lemma|universe|requires|ensures|assumes|modifies|preserves|loop#\d+|at|inline|trusted|noverify|ghost|params|safe|unroll#\d+|monitor|pure)\b`)
 
 func stripComment(s string) string {
 	// remove trailing " // ..." comments (not inside string literals)
@@ -281,6 +291,13 @@ func (e *Engine) LoadContracts(path string, external bool) error {
 			}
 			n := strings.TrimSpace(parts[0])
 			e.ghosts[n] = &GhostDecl{Name: n, Sort: strings.TrimSpace(parts[1])}
+		case kw == "universe":
+			for _, u := range strings.Split(rest, ",") {
+				if strings.TrimSpace(u) != "" {
+					e.universe = append(e.universe, patternPrefix(pkg, u))
+				}
+			}
+			cur = nil
 		case kw == "monitor":
 			e.monitors = append(e.monitors, &Monitor{Src: rest})
 		default:
@@ -288,6 +305,12 @@ func (e *Engine) LoadContracts(path string, external bool) error {
 				return fmt.Errorf("%s:%d: clause outside of a func block: %s", rel, rc.line, t)
 			}
 			switch {
+			case kw == "assumes":
+				cl, err := parseClause(rest, rel, rc.line)
+				if err != nil {
+					return err
+				}
+				cur.Assumes = append(cur.Assumes, cl)
 			case kw == "requires" || kw == "ensures":
 				cl, err := parseClause(rest, rel, rc.line)
 				if err != nil {
@@ -310,7 +333,23 @@ func (e *Engine) LoadContracts(path string, external bool) error {
 					case "all":
 						cur.ModAll = true
 					default:
-						cur.Modifies = append(cur.Modifies, m)
+						if i := strings.Index(m, "@"); i > 0 {
+							ex, err := parser.ParseExpr(m[i+1:])
+							if err != nil {
+								return fmt.Errorf("%s:%d: bad object expression in %q: %v", rel, rc.line, m, err)
+							}
+							cur.ModObj = append(cur.ModObj, &ModObjEntry{Field: strings.TrimSpace(m[:i]), Expr: ex, Src: m})
+						} else {
+							cur.Modifies = append(cur.Modifies, m)
+						}
+					}
+				}
+			case kw == "preserves":
+				cur.ModGiven = true
+				for _, m := range strings.Split(rest, ",") {
+					m = strings.TrimSpace(m)
+					if m != "" {
+						cur.Preserves = append(cur.Preserves, m)
 					}
 				}
 			case strings.HasPrefix(kw, "loop#"):
@@ -354,6 +393,16 @@ func (e *Engine) LoadContracts(path string, external bool) error {
 					idx++
 				}
 				sc.Kind = f[idx]
+				if sc.Kind == "havoc" {
+					pos := strings.Index(rest, " havoc ")
+					for _, m := range strings.Split(rest[pos+7:], ",") {
+						if strings.TrimSpace(m) != "" {
+							sc.Havoc = append(sc.Havoc, strings.TrimSpace(m))
+						}
+					}
+					cur.Sites = append(cur.Sites, sc)
+					break
+				}
 				if sc.Kind != "assert" && sc.Kind != "assume" {
 					return fmt.Errorf("%s:%d: site clause kind must be assert", rel, rc.line)
 				}
